@@ -469,12 +469,24 @@ async fn run_async(body: Body, rec: Arc<Rec>, op: OpId, st: Arc<ObjState>, name:
 }
 
 /// A world: the recorder plus the objects of one execution
+/// the world of the execution that is currently running (looked up by `spawn`)
+static CUR_WORLD: StdMutex<Option<(u64, std::sync::Weak<World>)>> = StdMutex::new(None);
+
 pub type KeptFuture = (Pin<Box<scheduler::SchedulerFuture<u64>>>, u64, OpId, String);
 
 pub struct World {
     pub rec: Arc<Rec>,
     /// futures polled once and kept (generated programs)
     pub kept: StdMutex<Vec<KeptFuture>>,
+    /// environment threads and objects of the saturated-start prelude
+    pre_env: StdMutex<Vec<vthread::JoinHandle<()>>>,
+    pre_objs: StdMutex<Vec<Obj>>,
+    /// stale-waker environment (`sw=1`): every object first hosts a future operation that completes, and the wakers that
+    /// operation was polled with all fire once more at an arbitrary moment after the scenario's first thread was spawned
+    sw: std::sync::atomic::AtomicBool,
+    sw_pool: AtomicUsize,
+    sw_started: std::sync::atomic::AtomicBool,
+    sw_gates: StdMutex<Vec<Gate>>,
     next_id: AtomicUsize,
     pub objs: StdMutex<Vec<Arc<ObjState>>>,
     pub payload_drops: Arc<AtomicUsize>,
@@ -482,14 +494,44 @@ pub struct World {
 
 impl World {
     pub fn new() -> Arc<World> {
-        Arc::new(World { rec: Rec::new(), kept: StdMutex::new(vec![]), next_id: AtomicUsize::new(0), objs: StdMutex::new(vec![]), payload_drops: Arc::new(AtomicUsize::new(0)) })
+        let w = Self::new_unregistered();
+        *CUR_WORLD.lock().unwrap() = Some((rt::exec_id(), Arc::downgrade(&w)));
+        w
+    }
+
+    fn new_unregistered() -> Arc<World> {
+        Arc::new(World { rec: Rec::new(), kept: StdMutex::new(vec![]), pre_env: StdMutex::new(vec![]), pre_objs: StdMutex::new(vec![]), sw: std::sync::atomic::AtomicBool::new(false), sw_pool: AtomicUsize::new(0), sw_started: std::sync::atomic::AtomicBool::new(false), sw_gates: StdMutex::new(vec![]), next_id: AtomicUsize::new(0), objs: StdMutex::new(vec![]), payload_drops: Arc::new(AtomicUsize::new(0)) })
     }
 
     pub fn raw(&self) -> Obj {
         let mut objs = self.objs.lock().unwrap();
         let st = Arc::new(ObjState { id: self.next_id.fetch_add(1, AO::SeqCst), occ: AtomicUsize::new(0), dead: AtomicUsize::new(0), inside: StdMutex::new(vec![]) });
         objs.push(st.clone());
-        Obj::Raw(scheduler::queue(), st)
+        drop(objs);
+        let o = Obj::Raw(scheduler::queue(), st);
+        self.harvest(&o);
+        o
+    }
+
+    /// `sw=1`: an earlier future operation on the new object, polled with a waker that is kept
+    fn harvest(&self, o: &Obj) {
+        if !self.sw.load(AO::SeqCst) {
+            return;
+        }
+        let g = Gate::new();
+        self.future_desync(o, "HARVEST-FD", Body::gated(&g)).detach();
+        if self.sw_pool.load(AO::SeqCst) == 0 {
+            // no pool thread: the operation is run by this thread inside sync (thread waker)
+            let g2 = g.clone();
+            let e = vthread::spawn(move || g2.open());
+            self.sync(o, "HARVEST-DRAIN", Body::plain());
+            join(e, "harvest-opener");
+        } else {
+            rt::quiesce();
+            g.open();
+            rt::quiesce();
+        }
+        self.sw_gates.lock().unwrap().push(g);
     }
 
     pub fn new_payload(&self) -> (Payload, Arc<ObjState>) {
@@ -500,7 +542,9 @@ impl World {
     pub fn desync_obj(&self) -> Obj {
         let (p, st) = self.new_payload();
         self.objs.lock().unwrap().push(st.clone());
-        Obj::D(Arc::new(Desync::new(p)), st)
+        let o = Obj::D(Arc::new(Desync::new(p)), st);
+        self.harvest(&o);
+        o
     }
 
     // ---- operations -------------------------------------------------------------------------
@@ -729,8 +773,55 @@ impl World {
         FsHandle { rec, op, name: name.to_string(), fut: Some(fut), token }
     }
 
+    /// Saturated start (`sat=1` in the cfg): before the scenario proper, every pool thread is pinned by a blocking job and a
+    /// stale entry is left in the schedule (a queue scheduled and then run by its caller); an environment thread releases the
+    /// pool threads at some later, explored, moment.  Every property tolerates a pool that is busy for a while, so this is a
+    /// legal environment for every scenario.
+    pub fn prelude(self: &Arc<Self>, cfg: &Cfg) {
+        if cfg.opt("sw", 0) == 1 {
+            self.sw_pool.store(cfg.pool(), AO::SeqCst);
+            self.sw.store(true, AO::SeqCst);
+            // (not combined with the saturated start: the harvest needs a pool thread or the caller to run the operation)
+            return;
+        }
+        if cfg.opt("sat", 0) != 1 {
+            return;
+        }
+        let pool = cfg.pool();
+        let mut bgs = vec![];
+        for i in 0..pool {
+            let bq = self.raw();
+            let bg = BGate::new();
+            self.desync(&bq, &format!("PRE-pin{}", i), Body::blocking(&bg));
+            self.pre_objs.lock().unwrap().push(bq);
+            bgs.push(bg);
+        }
+        rt::quiesce();
+        let a = self.raw();
+        self.desync(&a, "PRE-A", Body::plain());
+        self.sync(&a, "PRE-SA", Body::plain());
+        self.pre_objs.lock().unwrap().push(a);
+        self.pre_env.lock().unwrap().push(spawn(move || {
+            for bg in &bgs {
+                bg.open();
+            }
+        }));
+    }
+
+    fn end_prelude(&self) {
+        let hs: Vec<_> = std::mem::take(&mut *self.pre_env.lock().unwrap());
+        for h in hs {
+            join(h, "prelude-env");
+        }
+        let objs: Vec<_> = std::mem::take(&mut *self.pre_objs.lock().unwrap());
+        for o in &objs {
+            expect_idle(o);
+        }
+    }
+
     /// Universal end-state oracles (call after the last `quiesce`)
     pub fn check_quiet(&self) {
+        self.end_prelude();
         self.rec.check_once();
         self.rec.check_order();
         let objs = self.objs.lock().unwrap().clone();
@@ -1128,6 +1219,25 @@ impl Drop for DropCount {
 }
 
 pub fn spawn<F: FnOnce() + Send + 'static>(f: F) -> vthread::JoinHandle<()> {
+    // stale-waker environment: its thread starts together with the scenario's first thread
+    let cur = CUR_WORLD.lock().unwrap().clone();
+    if let Some((exec, w)) = cur {
+        if exec == rt::exec_id() {
+            if let Some(w) = w.upgrade() {
+                if w.sw.load(AO::SeqCst) && !w.sw_started.swap(true, AO::SeqCst) {
+                    let gates: Vec<Gate> = w.sw_gates.lock().unwrap().clone();
+                    if !gates.is_empty() {
+                        let h = vthread::spawn(move || {
+                            for g in &gates {
+                                g.fire_stale();
+                            }
+                        });
+                        w.pre_env.lock().unwrap().push(h);
+                    }
+                }
+            }
+        }
+    }
     vthread::spawn(f)
 }
 
